@@ -9,7 +9,7 @@ use vcore::{compile, Check, Labels, Outcome, Plan, Project, Stats, Step, Tape, T
 pub struct C14;
 pub const CHECK: C14 = C14;
 pub fn plan(t: Tier) -> Plan {
-    Plan::new(t.pick(4_000, 80_000), t.pick(3200, 4500))
+    Plan::new(t.pick(16_000, 200_000), t.pick(3200, 4500))
 }
 
 #[derive(Clone, Serialize, Deserialize)]
